@@ -34,7 +34,16 @@ RULE = ("deterministic corpus (one write of every kind 9.999 s / 9.999999 s / 10
         "connection sees it); histories whose previous flush is a read of every kind, Datastore-level calls between "
         "writes, a second store (another file) alive in the process doing its own flushes and bursts; one black-box run "
         "per layer with single writes of 10 001 and 15 000 events.  "
-        "non-trivial = distinct history in which conditional_commit both buffered and flushed")
+        "Round 5, engine faults (harness/c18_fault.py): the store's connection behind a delegating wrapper whose commit() / "
+        "write execute() / executemany() raises sqlite3.OperationalError once (or for the whole call) at a chosen call index, "
+        "the caller catches the exception and carries on: written-out histories (flush; +12 s a write of which the COMMIT "
+        "raises; the next write +1 s / +5 s / +9.9 s / +10.000001 s later; count-branch COMMIT, bucket operations, reads, "
+        "statements of multi-statement calls, bulk statements part-way, eager store, re-opened store), a COMMIT that raises at "
+        "EVERY commit position of the age corpus followed by such writes, seeded random positions, both layers; one run per "
+        "layer with a real lock (rollback-journal mode, a reader's shared lock makes the COMMIT raise by itself); oracle "
+        "relative to the last flush that happened (second connection).  "
+        "non-trivial = distinct history in which conditional_commit both buffered and flushed, or (fault stream) in which a "
+        "commit step raised")
 
 
 def real_time_run(ck, sq, Event):
@@ -71,9 +80,15 @@ def main(argv=None):
     from aw_core.models import Event
 
     ck.run_witnesses(["w08", "w21", "w22"])
-    ck.prove(extra_targets=["Bridge/BridgeCommit.v", "Model/CommitDriver.v", "Props/C18api.v", "Model/CommitApiDriver.v",
-                            "Props/C18fault.v", "Bridge/BridgeCommitFault.v", "Model/CommitFaultDriver.v"],
-             gen_kernels=["commit", "conditional_commit", "sqlite_scripts", "commit_fault", "conditional_commit_fault"])
+    proved = ck.prove(extra_targets=["Bridge/BridgeCommit.v", "Model/CommitDriver.v", "Props/C18api.v", "Model/CommitApiDriver.v",
+                                     "Props/C18fault.v", "Bridge/BridgeCommitFault.v", "Model/CommitFaultDriver.v"],
+                      gen_kernels=["commit", "conditional_commit", "sqlite_scripts", "commit_fault", "conditional_commit_fault"])
+    if proved:      # what the theorems about engine faults rest on (Print Assumptions of Props/C18fault.v)
+        ok_ax, ax = common.print_assumptions("Props/C18fault.v", ck.log)
+        if ok_ax:
+            ck.axioms.update(ax)
+        else:
+            ck.broken.append("Print Assumptions pass failed on Props/C18fault.v")
     have_driver = ck.driver()
 
     quick = ck.tier == "quick"
@@ -117,8 +132,14 @@ def main(argv=None):
         "API layer: 'an event write issued at t' is one call of a Datastore / Bucket method, issued when the method is "
         "entered; 'the previous flush' is the last instant BEFORE that entry at which nothing was pending (what the "
         "wrapper does between entry and return is part of the write, never a previous flush)",
+        "engine faults: a COMMIT that raises makes nothing durable and leaves the transaction open; a statement that raises "
+        "is rolled back on its own; the rows an executemany went through before it raised stay in the open transaction "
+        "(SQLite; sampled through the second connection, and by the real-lock run); 'returns normally' = no exception "
+        "reaches the caller; the writes of a call that raised may be at risk, and old, until the next write returns",
     ]
-    ck.trusted += ["translate/k_commit.py (tie B: commit, conditional_commit incl. the operand order of the age test, scripts)"]
+    ck.trusted += ["translate/k_commit.py (tie B: commit, conditional_commit incl. the operand order of the age test, scripts)",
+                   "translate/k_commitfault.py (tie B: statement order of commit() around self.conn.commit(), exception "
+                   "propagation through conditional_commit)"]
     return ck.finish(RULE)
 
 
